@@ -74,8 +74,11 @@ pub fn gen_project(t: &mut Tape) -> Value {
         let nr = 1 + t.weighted(&[4, 3, 2]);
         let rules: Vec<String> = (0..nr).map(|_| if t.chance(1, 12) { ";; only a comment".to_string() } else { simple_rule(t, &segs) }).collect();
         let nd = t.weighted(&[3, 4, 2, 1]);
-        let desc: Vec<String> = (0..nd).map(|_| DESCS[t.pick(DESCS.len())].to_string()).collect();
-        groups.push((NAMES[name_i % NAMES.len()].to_string(), rules, desc)); name_i += 1;
+        // description lines; an empty line (also as the last one: a description that ends in a line break) must survive the conversions too
+        let desc: Vec<String> = (0..nd).map(|i| if i > 0 && t.chance(1, 6) { String::new() } else { DESCS[t.pick(DESCS.len())].to_string() }).collect();
+        // one group in eight is untitled (what `RuleGroup::from_rules` produces): it is written as a bare `@` line
+        let name = if t.chance(1, 8) { String::new() } else { NAMES[name_i % NAMES.len()].to_string() };
+        groups.push((name, rules, desc)); name_i += 1;
     }
     let (mut into, mut from) = if t.chance(1, 2) { let (i, _) = gen_deromanisers(t); let (f, _) = gen_romanisers(t, &segs); (i, f) } else { (vec![], vec![]) };
     // alias lines that begin with an escape (`@{acute}Я > a`, `\u{416} > ʃ`) and a word that uses them; romaniser outputs with escapes
@@ -99,7 +102,7 @@ impl Property for C19 {
          (b) `conv asca` on the files gives JSON equal to the intended project; `conv json` on that JSON followed by `conv asca` reproduces the same JSON (words, groups with name/rules/description, aliases). Timeouts (30 s) give exit 2, never a violation. \
          Non-trivial: ≥2 groups, a multi-line description or blank/comment line in the word file, and a rule that fires. Quick 4000 projects (~28000 process runs), thorough 40000.".into()
     }
-    fn assumptions(&self) -> Vec<String> { vec!["well-formed domain: group names non-empty single trimmed lines not starting with # or @; rule lines non-empty after trimming; description lines non-empty and trimmed; the word file does not end in an empty entry; `#` does not occur inside words".into()] }
+    fn assumptions(&self) -> Vec<String> { vec!["well-formed domain: group names single trimmed lines not starting with # or @ (possibly empty); rule lines non-empty after trimming; description lines trimmed (an empty line is allowed after the first); the word file does not end in an empty entry; `#` does not occur inside words".into()] }
     fn workers(&self, _t: Tier) -> usize { 8 }
     fn explore(&self, ctx: &mut Ctx) {
         let n = ctx.tier.pick(4000, 40000);
